@@ -13,7 +13,7 @@ import (
 func init() { register("C19", "exploration", runC19) }
 
 func runC19(r *engine.Run) {
-	r.Rule = "E1. (a) fragment count M = 1..300 (all) x redundancy 100 with an identity-matrix data block (fragment i carries only bit i), so one Encode reveals all 100 parity-matrix lines, compared with the TS004 matrix_line transcribed independently (mc/spec/frag.go); (b) fragment size 1..64 x M in {1,2,3,7,8,9,31,32,33} x redundancy {0,1,5}: systematic part unchanged and in order, parity = XOR of the selected rows, linearity Encode(a^b) = Encode(a)^Encode(b); (c) for M <= 64 and every erasure pattern of <= 2 lost data fragments (all C(M,1)+C(M,2)) a GF(2) elimination decoder fed with the encoder's fragments recovers the block iff the specification's selection vectors have full rank; (d) invalid arguments (size 0, negative, non-dividing; redundancy -1, 0; empty data) give errors or empty parity, never a panic. Non-trivial: an Encode call whose output was compared with the specification's parity lines."
+	r.Rule = "E1. (a) fragment count M = 1..300 (all) x redundancy 100 with an identity-matrix data block (fragment i carries only bit i), so one Encode reveals all 100 parity-matrix lines, compared with the TS004 matrix_line transcribed independently (mc/spec/frag.go); (b) fragment size 1..64 x M in {1,2,3,7,8,9,31,32,33} x redundancy {0,1,5} x six data patterns (counting, 0xFF fill, a repeated 8-byte record, alternating zero / 0xFF rows, one byte per row, rows whose 8-byte words cancel under XOR): systematic part unchanged and in order, parity = XOR of the selected rows, linearity Encode(a^b) = Encode(a)^Encode(b); (c) for M <= 64 and every erasure pattern of <= 2 lost data fragments (all C(M,1)+C(M,2)) a GF(2) elimination decoder fed with the encoder's fragments recovers the block iff the specification's selection vectors have full rank; (d) invalid arguments (size 0, negative, non-dividing; redundancy -1, 0; empty data) give errors or empty parity, never a panic. Non-trivial: an Encode call whose output was compared with the specification's parity lines."
 	c19History(r)
 	r.Assume("data contents are identity / counting / patterned blocks: the encoder is linear over XOR (checked), so basis vectors determine it")
 
@@ -76,16 +76,37 @@ func runC19(r *engine.Run) {
 
 	ms := []int{1, 2, 3, 7, 8, 9, 31, 32, 33}
 	reds := []int{0, 1, 5}
-	sp := (&engine.Space{}).Dim("fragment size(1..64)", 64).Dim("M", len(ms)).Dim("redundancy", len(reds))
+	sp := (&engine.Space{}).Dim("fragment size(1..64)", 64).Dim("M", len(ms)).Dim("redundancy", len(reds)).Dim("data pattern{counting,0xFF fill,8-byte record,zero/FF rows,one byte per row,word-symmetric rows}", 6)
 	r.PartDims("systematic-linear", sp.Desc(), sp.N(), func(c *engine.Case) {
-		var ch [3]int
+		var ch [4]int
 		sp.Decode(c.Index, ch[:])
 		size, m, red := ch[0]+1, ms[ch[1]], reds[ch[2]]
 		a := make([]byte, m*size)
 		b := make([]byte, m*size)
 		x := make([]byte, m*size)
 		for i := range a {
-			a[i] = byte(i*13 + 1)
+			row, col := i/size, i%size
+			switch ch[3] {
+			case 0:
+				a[i] = byte(i*13 + 1)
+			case 1:
+				a[i] = 0xFF // erased flash
+			case 2:
+				a[i] = []byte{0xDE, 0xAD, 0xBE, 0xEF, 0x01, 0x02, 0x03, 0x04}[col%8] // a repeated 8-byte record
+			case 3:
+				if row%2 == 1 {
+					a[i] = 0xFF
+				}
+			case 4:
+				if col == row%size {
+					a[i] = byte(row + 1)
+				}
+			case 5:
+				a[i] = byte(0x10 + (col%16)/2 + row) // every 16-byte group repeats its first half pairwise
+				if col%16 >= 8 {
+					a[i] = a[i-8]
+				}
+			}
 			b[i] = byte(0xA5 ^ i*7)
 			x[i] = a[i] ^ b[i]
 		}
